@@ -71,6 +71,13 @@ func main() {
 			return run.Finish()
 		}()
 		os.Exit(code)
+	case "debug":
+		run := core.NewRun("debug", "quick")
+		ctx := props.NewCtx(run)
+		switch os.Args[2] {
+		case "rel":
+			props.DumpRel(ctx)
+		}
 	default:
 		usage()
 	}
